@@ -1,0 +1,17 @@
+// SPDX-FileCopyrightText: 2026 The Pion community <https://pion.ly>
+// SPDX-License-Identifier: MIT
+
+//go:build verif && verif_c22 && !js
+
+package webrtc
+
+// VerifUpdateConnectionState exposes updateConnectionState to the
+// verification harness (property C22).
+func (pc *PeerConnection) VerifUpdateConnectionState(ice ICEConnectionState, dtls DTLSTransportState) {
+	pc.updateConnectionState(ice, dtls)
+}
+
+// VerifSetClosedFlag sets the [[IsClosed]] slot without running close().
+func (pc *PeerConnection) VerifSetClosedFlag() {
+	pc.isClosed.Store(true)
+}
